@@ -62,16 +62,30 @@ def gen_invalid(rng, cfg):
                 call["args"][2] = {"$b": [1, 512]}
         return dict(op="invalid", kind="blocksize", **call)
     if r < 0.5:
-        return {"op": "invalid", "kind": "opcode", "value": rng.choice(sorted(NO_FIXED_LEN)), "via": rng.choice(["init_cdb", "ctor", "ctor_rw"])}
+        op = {"op": "invalid", "kind": "opcode", "value": rng.choice(sorted(NO_FIXED_LEN)), "via": rng.choice(["init_cdb", "ctor", "ctor_rw"])}
+        if rng.random() < 0.4:
+            # the OpCode object was used for a valid command before and then re-pointed through its public value setter
+            op["first_value"] = rng.choice([0x00, 0x12, 0x28, 0x88, 0xA0, 0x5E])
+        return op
     if r < 0.65:
         return {"op": "invalid", "kind": "service_action", "value": rng.choice([4, 5, 7, 31, 32, 255, -1, 1000])}
     if r < 0.85:
         ver = rng.choice([4, 5])
-        what = rng.choice(["target_key", "segment_key", "target_code", "segment_code", "device_type", "lu_id_type"])
-        return {"op": "invalid", "kind": "xcopy", "ver": ver, "what": what, "junk": rng.choice(["bogus", "pad2", "x"]),
+        what = rng.choice(["target_key", "segment_key", "segment_key", "segment_key_b2s", "target_code", "segment_code", "device_type", "lu_id_type"])
+        # junk keys: invented names and names that other descriptor formats define (they are unknown to *this* format)
+        junk = rng.choice(["bogus", "pad2", "x"]) if what != "segment_key" else rng.choice(["bogus", "x", "stream_device_transfer_length", "block_device_logical_block_address", "fixed", "pad"] + (["fco"] if ver == 4 else []))
+        if what == "segment_key_b2s":
+            junk = rng.choice(["dc", "fco", "source_block_device_logical_block_address", "bogus"])
+        return {"op": "invalid", "kind": "xcopy", "ver": ver, "what": what, "junk": junk,
                 "code": rng.choice([0x10, 0x7F, 0xDF, 0xFF, 0x55]), "nvalid": rng.randrange(3)}
-    return {"op": "invalid", "kind": "transport_id", "what": rng.choice(["sid_no_format", "format_no_sid"]),
-            "sa": rng.choice([0, 7]), "pos": rng.randrange(2)}
+    op = {"op": "invalid", "kind": "transport_id", "what": rng.choice(["sid_no_format", "format_no_sid"]),
+          "sa": rng.choice([0, 7]), "pos": rng.randrange(2)}
+    if op["what"] == "format_no_sid":
+        op["fmt"] = rng.choice([1, 1, 1, True])
+        op["sid"] = rng.choice(["absent", "absent", "none", "empty", "emptybytes", "zero"])   # every way of giving no session id
+    else:
+        op["fmt"] = rng.choice(["absent", "absent", "none", "zero"])
+    return op
 
 
 VALID = ["inquiry", "testunitready", "reportluns", "read10", "write16", "readcapacity16", "modesense6", "synchronizecache10",
@@ -138,6 +152,13 @@ def xcopy_kwargs(op):
         targets[-1][op["junk"]] = 1
     elif w == "segment_key":
         segs[-1][op["junk"]] = 1
+    elif w == "segment_key_b2s":
+        b2s = {"descriptor_type_code": 0x00, "cat": 1, "stream_device_transfer_length": 8, "block_device_number_of_blocks": 4,
+               "block_device_logical_block_address": 10}
+        b2s["source_cscd_descriptor_id" if spc5 else "source_target_descriptor_id"] = 0
+        b2s["destination_cscd_descriptor_id" if spc5 else "destination_target_descriptor_id"] = 1
+        b2s[op["junk"]] = 1
+        segs[-1] = b2s
     elif w == "target_code":
         targets[-1]["descriptor_type_code"] = op["code"] if op["code"] not in range(0xE0, 0xEB) else 0x10
     elif w == "segment_code":
@@ -224,6 +245,11 @@ def execute(prog):
         elif name == "invalid" and op["kind"] == "opcode" or name == "opcode_any":
             v = op["value"]
             oc = OpCode("X_%02X" % v, v, {})
+            if "first_value" in op:
+                oc = OpCode("X_%02X" % v, op["first_value"], {})
+                worlds.outcome_of(lambda: SCSICommand.init_cdb(oc))
+                worlds.outcome_of(lambda: TestUnitReady(oc))
+                oc.value = v
             if op["via"] == "init_cdb":
                 fn = lambda: SCSICommand.init_cdb(oc)
             elif op["via"] == "ctor":
@@ -257,8 +283,12 @@ def execute(prog):
         elif name == "invalid" and op["kind"] == "transport_id":
             if op["what"] == "sid_no_format":
                 tid = {"protocol_id": 5, "iscsi_name": "iqn.2026-10.verif:a", "iscsi_initiator_session_id": "00023d000001"}
+                if op.get("fmt", "absent") != "absent":
+                    tid["tpid_format"] = {"none": None, "zero": 0}[op["fmt"]]
             else:
-                tid = {"protocol_id": 5, "iscsi_name": "iqn.2026-10.verif:a", "tpid_format": 1}
+                tid = {"protocol_id": 5, "iscsi_name": "iqn.2026-10.verif:a", "tpid_format": op.get("fmt", 1)}
+                if op.get("sid", "absent") != "absent":
+                    tid["iscsi_initiator_session_id"] = {"none": None, "empty": "", "emptybytes": b"", "zero": 0}[op["sid"]]
             good = {"protocol_id": 5, "iscsi_name": "iqn.2026-10.verif:ok"}
             if op["sa"] == 7:
                 fn = lambda: scsi.persistentreserveout(7, reservation_key=1, service_action_reservation_key=2, transport_id=tid)
